@@ -8,7 +8,7 @@ import numpy as np
 from toqito.channels import partial_transpose, realignment
 
 from .. import gen
-from ..exact import NotExact, call, present, split_int
+from ..exact import NotExact, call, present, split_int, strict_fp_call
 from .c02 import VAR_KINDS_RECT, VAR_KINDS_SQUARE, determine_variable_branch
 
 RULE = ("configurations (row/column dims, subset S and its form, dim argument form, dtype, numeric or cvxpy Variable) from the seeded generator, "
@@ -17,7 +17,11 @@ RULE = ("configurations (row/column dims, subset S and its form, dim argument fo
         "basis of the variable's domain and compared with the Lean model run on the free expression type; raw argument forms (omitted / scalar / "
         "one-element / vector / two-row dim, None / int / list sys incl. repeated, negative, out-of-range entries, wrong products; realignment: "
         "omitted / int / [a,b] / two-row) are decoded by the Lean model and acceptance as well as the result must agree; non-trivial = some "
-        "transposed and some untouched subsystem with dimension > 1 (pt), both local dims > 1 (realignment); distinct = configuration hash")
+        "transposed and some untouched subsystem with dimension > 1 (pt), both local dims > 1 (realignment); distinct = configuration hash; "
+        "strict-fp stream (fixed configurations first, then seeded ones from a fresh child of the seeded generator spawned after all other streams; one seed per case): partial_transpose "
+        "(dim omitted / scalar / list / two-row, sys None / int / list) and realignment (dim omitted / int / pair / two-row) on all-zero, rank-one (v w^H, Gaussian integers) and "
+        "labelled inputs, real and complex, square and rectangular, evaluated once in NumPy's default floating-point error state and once with invalid / divide / overflow set to raise "
+        "(harness.exact.strict_fp_call): same outcome, same dtype, bitwise equal arrays; the input must be untouched")
 ASSUMPTIONS = ["NumPy data-movement primitives are dtype-parametric"]
 
 
@@ -209,6 +213,67 @@ def rand_subset(rng, n):
     k = int(rng.integers(1, n + 1))
     return [int(x) for x in rng.permutation(n)[:k]]
 
+SFP_FIXED = [("pt", [2, 2], [2, 2], None, "omitted"), ("pt", [3, 3], [3, 3], 0, "omitted"), ("pt", [2, 3], [2, 3], [1], "list"), ("pt", [2, 3], [2, 3], 1, "scalar"),
+             ("pt", [2, 3], [3, 2], [0], "two"), ("pt", [2, 2, 2], [2, 2, 2], [0, 2], "list"), ("pt", [1, 3], [1, 3], [1], "list"),
+             ("re", [2, 2], [2, 2], None, "omitted"), ("re", [3, 3], [3, 3], None, "omitted"), ("re", [2, 3], [2, 3], None, "list"), ("re", [2, 3], [2, 3], None, "scalar"),
+             ("re", [2, 3], [3, 2], None, "two"), ("re", [4, 2], [2, 3], None, "two")]
+
+
+def check_strict_fp(ctx, cfg, data, cplx, seed):
+    fnk, rd, cd, sys_arg, dim_form = cfg
+    rng = np.random.default_rng(int(seed))
+    R, C = int(np.prod(rd)), int(np.prod(cd))
+
+    def gi(r, c):
+        m = rng.integers(-9, 10, size=(r, c)).astype(complex if cplx else float)
+        return m + 1j * rng.integers(-9, 10, size=(r, c)) if cplx else m
+
+    if data == "zero":
+        X = np.zeros((R, C), dtype=complex if cplx else float)
+    elif data == "rank-one":
+        v, w = gi(R, 1), gi(C, 1)
+        v[int(rng.integers(R)), 0] = 0
+        X = v @ (v if R == C else w).conj().T
+    else:
+        X = _label(R, C, "complex128" if cplx else "float64")
+    dim = {"omitted": None, "scalar": int(rd[0]), "list": list(rd), "two": [list(rd), list(cd)]}[dim_form]
+    fn = partial_transpose if fnk == "pt" else realignment
+    args = (lambda: (X.copy(), sys_arg, dim)) if fnk == "pt" else (lambda: (X.copy(), dim))
+    desc = {"fn": "strict_fp", "function": fn.__name__, "rd": list(rd), "cd": list(cd), "sys": sys_arg, "dim_form": dim_form, "data": data, "complex": bool(cplx)}
+    ctx.case(desc, data != "zero" and min(rd) > 1, f"strict-fp/{fn.__name__}/{data}")
+    info = {"case_seed": int(seed), "function": fn.__name__, "args": desc, "theorem": "the function's value is a function of its arguments (the mirror model has no global state)"}
+    a0 = args()
+    ref = call(fn, *a0)
+    st = strict_fp_call(fn, *args())
+    if ref[0] != "ok":
+        return not ctx.violation(f"{fn.__name__}: {ref[0]} ({ref[1]}) on a valid {data} input, dims {rd} x {cd}, dim {dim_form}", info)
+    if st[0] == "raise":
+        return not ctx.violation(f"{fn.__name__}: value depends on NumPy's floating-point error state (default state: a value; invalid/divide/overflow set to 'raise': {st[1]}) on a {data} input, dims {rd} x {cd}, dim {dim_form}",
+                                 dict(info, impl=st[1]))
+    r0, r1 = np.asarray(ref[1]), np.asarray(st[1])
+    if r0.dtype != r1.dtype or r0.shape != r1.shape or not np.array_equal(r0, r1):
+        return not ctx.violation(f"{fn.__name__}: value under the strict floating-point error state differs from the default-state value ({data} input, dims {rd} x {cd})", dict(info, impl=str(r1)[:200], model=str(r0)[:200]))
+    if not np.array_equal(a0[0], X):
+        return not ctx.violation(f"{fn.__name__}: the caller's array was modified", dict(info, check="purity"))
+    if data == "zero" and np.any(r0):
+        return not ctx.violation(f"{fn.__name__}: non-zero entries for the zero input", dict(info, impl=str(r0)[:200]))
+    ctx.count("strict-fp/agree")
+    return True
+
+
+def strict_fp_stream(ctx):
+    srng = ctx.rng.spawn(1)[0]
+    k = 0
+    for cfg in SFP_FIXED:
+        for data in ("zero", "rank-one", "label"):
+            check_strict_fp(ctx, cfg, data, bool(k % 2), int(srng.integers(1 << 62)))
+            k += 1
+    for it in range(12):
+        n = int(srng.integers(2, 4))
+        rd = gen.rand_dims(srng, n, 2, 3, 18)
+        S = rand_subset(srng, n)
+        check_strict_fp(ctx, ("pt", rd, list(rd), S, "list"), ("zero", "rank-one")[it % 2], bool(srng.integers(2)), int(srng.integers(1 << 62)))
+
 
 def run(ctx, model_ok=True):
     rng = ctx.rng
@@ -367,6 +432,7 @@ def run(ctx, model_ok=True):
             if ar.integers(3) == 0:
                 R += 1
             check_realign_raw(ctx, R, C, [[r0, r1], [c0, c1]], "args-realign/two")
+    strict_fp_stream(ctx)   # a fresh child of the seeded generator; spawned after every other seeded stream
     if not quick:
         for n in range(1, 5):
             for dims in gen.all_dim_vectors(n, 1, 4, 32):
@@ -382,6 +448,8 @@ def run(ctx, model_ok=True):
 
 def replay(ctx, rec):
     a = rec["args"]
+    if a["fn"] == "strict_fp":
+        return check_strict_fp(ctx, ("pt" if a["function"] == "partial_transpose" else "re", a["rd"], a["cd"], a["sys"], a["dim_form"]), a["data"], a["complex"], rec.get("case_seed", 0))
     if a["fn"] == "partial_transpose_var":
         s = np.array(a["sys"]) if a.get("sys_form") == "ndarray" else a["sys"]
         return check_pt_var(ctx, a["rd"], a["cd"], s, a["dim_form"], a["kind"])
